@@ -433,9 +433,100 @@ def check(model, rep, tier):
   def atoms_with(tokens):
     return [a for a in atoms if all(tok in a for tok in tokens)]
 
+  # path-wise fallback (sa/pathsym) for a policy test that is not a mandatory
+  # edge of the graph because its verdict travels through a local (two exits
+  # merged: `msg = '...' if <test> ...; if msg is not None: return ...`): on
+  # every path that reaches the conversion -- paths contradicted by a constant
+  # test pruned -- the conditions must contradict the row's positive literal
+  from sa import pathsym as _psp
+  _cstmt = g.nodes[target][1]
+
+  def _const_test(t):
+    if isinstance(t, ast.Compare) and len(t.ops) == 1 and isinstance(
+        t.ops[0], (ast.Is, ast.IsNot)) and isinstance(t.left, ast.Constant) and isinstance(
+            t.comparators[0], ast.Constant):
+      r = t.left.value is t.comparators[0].value
+      return r if isinstance(t.ops[0], ast.Is) else (not r)
+    return None
+  _paths = []
+  for conds, _v in _psp.path_values(cc.node, _cstmt, ast.Constant(0), limit=2000):
+    fs_, dead = [], False
+    for pol, t in conds:
+      if pol not in ('T', 'F'):
+        continue
+      cv = _const_test(t)
+      if cv is not None:
+        if cv != (pol == 'T'):
+          dead = True
+          break
+        continue
+      b_ = formula.bool_formula(t, atom_of)
+      fs_.append(b_ if pol == 'T' else ~b_)
+    if not dead:
+      _paths.append(fs_)
+
+  def pathwise_blocked(name, toks):
+    if not _paths:
+      return False
+    for fs_ in _paths:
+      hits_ = sorted({a for f_ in fs_ for a in f_.atoms if all(tok in a for tok in toks)})
+      if not hits_:
+        return False
+      for a in hits_:
+        positive = formula.atom(a)
+        if name in ('no-code-object', 'non-recursive'):
+          positive = ~formula.atom(a)
+        sub = formula.TRUE
+        for f_ in fs_:
+          if a in f_.atoms:
+            sub = sub & f_
+        if not formula.implies(sub & positive, formula.FALSE)[0]:
+          return False
+    return True
+
+  # a target that runs unconverted only because the context is disabled must not
+  # be remembered as "never convert": the exit taken under the DISABLED test
+  # calls _call_unconverted with the cache update off (path-wise: the test may
+  # reach the call through a local)
+  dis_calls, dis_bad = 0, []
+  for st_ in ast.walk(cc.node):
+    if not isinstance(st_, (ast.Return, ast.Assign, ast.Expr)):
+      continue
+    cs_ = [c for c in ast.walk(st_) if isinstance(c, ast.Call) and core.dotted(
+        c.func) == '_call_unconverted']
+    if not cs_:
+      continue
+    for conds, _v in _psp.path_values(cc.node, st_, ast.Constant(0), limit=2000):
+      dead, under = False, False
+      for pol, t in conds:
+        cv = _const_test(t)
+        if cv is not None and cv != (pol == 'T'):
+          dead = True
+          break
+        if pol == 'T' and 'Status.DISABLED' in core.norm(t) and not isinstance(t, ast.BoolOp):
+          under = True
+      if dead or not under:
+        continue
+      dis_calls += 1
+      for c in cs_:
+        if remembers_at(c) is not False:
+          dis_bad.append(core.norm(c)[:80])
+  rep.check(dis_calls >= 1 and not dis_bad, 'CALL-POLICY',
+            '%s:disabled-context-exit-is-not-remembered' % cc.site,
+            'a callable that is run as it is only because conversion is disabled in '
+            'the current context must not enter the negative cache: with equal options '
+            'it would never be converted again, in any context',
+            {'calls_under_disabled': dis_calls, 'remembering': sorted(set(dis_bad))},
+            line=cc.node.lineno,
+            witness='a closure first called from a do_not_convert region, later from '
+            'converted code')
+
   for name, toks in ROWS:
     hit = atoms_with(toks)
     site = '%s:row(%s)' % (cc.site, name)
+    if not hit and name != 'exec-defined' and pathwise_blocked(name, toks):
+      rep.hold('CALL-POLICY', site, {'decided': 'path-wise'})
+      continue
     if not hit:
       rep.violation('CALL-POLICY', site,
                     'conversion is no longer dominated by the policy test for '
@@ -831,6 +922,17 @@ def check(model, rep, tier):
             'stored positionals of the partial must come before call-site ones',
             {'positional_argument': a1}, line=rc.lineno)
   kname = rc.args[2].id if len(rc.args) > 2 and isinstance(rc.args[2], ast.Name) else None
+  # (the dictionary may reach the call under another local name: follow a
+  # plain `b = a` whose `a` is itself a local built here)
+  for _hop in range(3):
+    ds_ = [a for a in core.walk_no_nested(cc.node) if isinstance(a, ast.Assign) and
+           kname is not None and any(isinstance(t, ast.Name) and t.id == kname
+                                     for t in a.targets)]
+    if len(ds_) == 1 and len(ds_[0].targets) == 1 and isinstance(ds_[0].value, ast.Name) \
+        and ds_[0].value.id not in fparams:
+      kname = ds_[0].value.id
+    else:
+      break
   FRESH = ('f.keywords.copy()', 'dict(f.keywords)', 'dict(**f.keywords)', '{}', 'dict()')
 
   def alternatives(e):
